@@ -86,6 +86,9 @@ impl Engine for Msim {
         let thorough = ctx.tier == Tier::Thorough;
         let p = gen::profile_for(&ctx.prop, thorough);
         let cases = match (ctx.prop.as_str(), thorough) {
+            // pause-free histories are cheap: more of them
+            ("C04" | "C08" | "C13", false) => 16 * 6000,
+            ("C04" | "C08" | "C13", true) => 16 * 60000,
             (_, false) => 16 * 800,
             (_, true) => 16 * 20000,
         };
